@@ -71,6 +71,8 @@ def run_one(harness, prefix, res, interp=None, want_sample=False):
         else: res.violations.append(vd)
     except Unsupported as u:
         res.unsupported.append(str(u))
+        if os.environ.get('MIRSYM_DEBUG'):
+            traceback.print_exc(); print('witness', witness_of(ctx))
     except z3.Z3Exception as e:
         res.unsupported.append('z3: ' + str(e))
     except RecursionError:
@@ -78,6 +80,8 @@ def run_one(harness, prefix, res, interp=None, want_sample=False):
     except Panic as p:
         res.unsupported.append('panic outside a harness guard: ' + str(p))
     except Exception as e:
+        if os.environ.get('MIRSYM_DEBUG'):
+            traceback.print_exc(); print('witness', witness_of(ctx))
         res.unsupported.append('internal error of the encoder: ' + ''.join(traceback.format_exception_only(type(e), e)).strip() + ' @ ' + traceback.format_tb(e.__traceback__)[-1].strip().replace('\n', ' '))
     res.solver_calls += ctx.nsolver; res.solver_time += ctx.solver_time
     res.obligations += ctx.obligations; res.steps += ctx.steps
